@@ -32,9 +32,10 @@ const (
 	RBatchRemove
 	RRestartAll
 	RInspect
+	RCompact // every member snapshots and compacts its zero-group log: a restart then rebuilds the catalogue from the snapshot
 )
 
-var rNames = []string{"insert", "update", "remove", "batchInsert", "batchUpdate", "batchRemove", "restartAll", "inspect"}
+var rNames = []string{"insert", "update", "remove", "batchInsert", "batchUpdate", "batchRemove", "restartAll", "inspect", "compactZeroLogs"}
 
 type RStep struct {
 	K    int   `json:"k"`
@@ -67,7 +68,7 @@ func genRCase(t *rapid.T) RCase {
 	c.R = rapid.SampledFrom([]int{1, 1, 2, 3}).Draw(t, "r")
 	c.Ids = rapid.SliceOfNDistinct(genID(), 2, 12, rapid.ID[[16]byte]).Draw(t, "ids")
 	step := rapid.Custom(func(t *rapid.T) RStep {
-		k := rapid.SampledFrom([]int{RInsert, RInsert, RInsert, RUpdate, RRemove, RBatchInsert, RBatchInsert, RBatchInsert, RBatchUpdate, RBatchRemove, RRestartAll, RInspect}).Draw(t, "k")
+		k := rapid.SampledFrom([]int{RInsert, RInsert, RInsert, RUpdate, RRemove, RBatchInsert, RBatchInsert, RBatchInsert, RBatchUpdate, RBatchRemove, RRestartAll, RRestartAll, RInspect, RCompact}).Draw(t, "k")
 		s := RStep{K: k, Via: rapid.IntRange(0, c.Members-1).Draw(t, "via")}
 		switch {
 		case k <= RRemove:
@@ -186,6 +187,7 @@ func runRCluster(c RCase, o *pbt.Obs) *pbt.Failure {
 	}
 	tainted := make([]bool, n)
 	proxied, inspected := 0, 0
+	compacted := false
 	vec := func(v int) []float32 { return []float32{1, float32(v)} }
 	inspect := func(where string) *pbt.Failure {
 		if !settle(6000) {
@@ -360,12 +362,21 @@ func runRCluster(c RCase, o *pbt.Obs) *pbt.Failure {
 			}
 			cl.ElectZero(1500)
 			o.Label("every-member-restarted")
+			if compacted {
+				o.Label("every-member-restarted-from-a-catalogue-snapshot")
+			}
 			if f := inspect(where); f != nil {
 				return f
 			}
 		case s.K == RInspect:
 			if f := inspect(where); f != nil {
 				return f
+			}
+		case s.K == RCompact:
+			for i := 0; i < c.Members; i++ {
+				if err, ran := cl.Nodes[i].Zero.VerifSnapshotNow(); ran && err == nil {
+					compacted = true
+				}
 			}
 		}
 		cl.Tick(1)
@@ -386,7 +397,7 @@ func runRCluster(c RCase, o *pbt.Obs) *pbt.Failure {
 func TestRoutingOnCluster(t *testing.T) {
 	pbt.Run(t, pbt.Prop[RCase]{
 		ID: "C10", Name: "TestRoutingOnCluster",
-		Rule:    "rapid-generated histories on 1-3 simulated nodes wired like server.go (package ctl: real zero groups, allocator-loaded partition raft groups, proxied requests through in-memory DataManager clients): a dataset with 1-7 partitions and replication factor 1-3; 2-12 generated 128-bit ids (the owner-function generator: boundary words, equal halves) are written through single and batch insert/update/remove entering at any member, hosting the owner partition or not; every member may be restarted (all at once); oracle: whenever every replica has applied its leader's commit index, every member's every local partition index is read: an id without an abandoned write is held by its owner partition (math/big reference) with the last acknowledged version and by no other partition; every verdict (acknowledged / already exists / not found) agrees with the acknowledged history whatever member and API path the earlier writes used; non-trivial = >=2 partitions, >=1 write entering at a member that does not host the owner, >=1 inspection; distinct = distinct case JSON",
+		Rule:    "rapid-generated histories on 1-3 simulated nodes wired like server.go (package ctl: real zero groups, allocator-loaded partition raft groups, proxied requests through in-memory DataManager clients): a dataset with 1-7 partitions and replication factor 1-3; 2-12 generated 128-bit ids (the owner-function generator: boundary words, equal halves) are written through single and batch insert/update/remove entering at any member, hosting the owner partition or not; every member may be restarted (all at once), also after the zero-group logs were compacted (the catalogue is then rebuilt from a snapshot); oracle: whenever every replica has applied its leader's commit index, every member's every local partition index is read: an id without an abandoned write is held by its owner partition (math/big reference) with the last acknowledged version and by no other partition; every verdict (acknowledged / already exists / not found) agrees with the acknowledged history whatever member and API path the earlier writes used; non-trivial = >=2 partitions, >=1 write entering at a member that does not host the owner, >=1 inspection; distinct = distinct case JSON",
 		Gen:     genRCase,
 		Check:   checkRCluster,
 		Journal: true,
